@@ -125,6 +125,39 @@ def run(ctx: Ctx):
         why = (f"actions / rewards of one _inner call appended per loader batch: {same_call and same_loop and over_loader}; into two distinct lists: {distinct}; "
                f"'rewards' = cat(rewards list) on dim 0: {r_ok}; 'actions' = cat(padded actions list) on dim 0: {a_ok}")
     ctx.ob("C17.b", "EvalBase.__call__:pairwise-append-and-concat", ok, fi.loc, why, construct="EvalBase.__call__:concat")
+    # batches of different decoding length are right-padded to the longest one (a shorter target would truncate: F.pad with a negative width cuts)
+    okp, whyp = False, "padding of the per-batch action tensors not found"
+    if len(pair) == 2 and isinstance(fre.ret, vg.S):
+        la = lists.get(0) if len(lists) == 2 else None
+        while isinstance(la, vg.S) and la.op == "nograd":
+            la = la.args[0]
+        pads = [n for n in vg.walk(fre.ret) if nf._fn(n) == "torch.nn.functional.pad"]
+        if len(pads) == 1 and la is not None and len(pads[0].args) >= 3:
+            pd_ = pads[0]
+            item, widths = pd_.args[1], pd_.args[2]
+            it_ok = item.op == "iter" and nf.strip(item.args[0]) is la or (item.op == "iter" and item.args[0].op == "nograd" and item.args[0].args[0] is la)
+            w_ok = False
+            def unw(x):
+                while isinstance(x, vg.S) and x.op == "nograd":
+                    x = x.args[0]
+                return x
+
+            def is_len_of(x, of):
+                x = unw(x)
+                return isinstance(x, vg.S) and x.op == "meth" and x.args[1] == "size" and len(x.args) == 3 and vg.is_const(x.args[2], -1) and unw(x.args[0]).op == "iter" and unw(unw(x.args[0]).args[0]) is of
+
+            if widths.op == "tuple" and len(widths.args) == 2 and vg.is_const(widths.args[0], 0):
+                w = unw(widths.args[1])
+                if w.op == "-" and len(w.args) == 2 and is_len_of(w.args[1], la) and unw(unw(w.args[1]).args[0]) is unw(item):
+                    mx = unw(w.args[0])
+                    if nf._fn(mx) == "max" and len(mx.args) == 2 and unw(mx.args[1]).op == "comp":
+                        src = unw(mx.args[1])
+                        overs = [x for x in src.args if isinstance(x, vg.S) and x.op == "over"]
+                        vals = [x for x in src.args[1:] if isinstance(x, vg.S) and x.op != "over"]
+                        w_ok = len(overs) == 1 and unw(overs[0].args[0]) is la and len(vals) == 1 and is_len_of(vals[0], la) and len(src.args) == 3
+            okp = it_ok and w_ok
+            whyp = f"every batch's actions are padded on the right by max_j len_j - len_i over ALL batches: items {it_ok}, width {w_ok}"
+    ctx.ob("C17.b", "EvalBase.__call__:pad-to-longest", okp, fi.loc, whyp, construct="EvalBase.__call__:padding")
     # wrap_dataset
     rb = ctx.repo.get_class(BL, "RolloutBaseline")
     fi = rb.methods["wrap_dataset"]
